@@ -78,7 +78,8 @@ def register(S):
             "roundtrip": dict(ghost={"v": "val", "rest": "bytes"},
                               requires=["T.%s + stream.unread == enc(v) + rest" % tag] + RT_REQ,
                               ensures=RT_ENS, raises={}, modifies=["stream.unread"], loops=loops_rt,
-                              calls=calls or {}, hints=list(hints), split=list(split)),
+                              calls=calls or {}, hints=list(hints), split=list(split),
+                              native_build="{'stream': (enc(v) + rest)[1:]}"),
             "safety": dict(ensures=SAFE_ENS, raises=SAFE_RAISES, modifies=["stream.unread"], loops=loops_safe),
         })
 
@@ -134,12 +135,47 @@ def register(S):
     S.contract(F + "_load", params={"stream": "obj:BytesIO"}, result="val", behaviours={
         "roundtrip": dict(ghost={"v": "val", "rest": "bytes"},
                           requires=["stream.unread == enc(v) + rest"] + RT_REQ, ensures=RT_ENS, raises={},
-                          modifies=["stream.unread"], calls={"*": {"ghost": {"v": "v", "rest": "rest"}}}),
+                          modifies=["stream.unread"], calls={"*": {"ghost": {"v": "v", "rest": "rest"}}},
+                          native_build="{'stream': enc(v) + rest}"),
         "safety": dict(ensures=SAFE_ENS, raises=SAFE_RAISES, modifies=["stream.unread"]),
     })
     S.contract(F + "load", params={"data": "val"}, result="val", behaviours={
         "roundtrip": dict(ghost={"v": "val"}, requires=["data == mkbytes(enc(v))"] + RT_REQ,
                           ensures={"returns_v": ("same(result, v)", P_DEC)}, raises={}, modifies=[],
-                          calls={"_load#0": {"ghost": {"v": "v", "rest": "empty()"}}}),
+                          calls={"_load#0": {"ghost": {"v": "v", "rest": "empty()"}}},
+                          native_build="{'data': enc(v)}"),
         "safety": dict(ensures=SAFE_ENS, raises=SAFE_RAISES, modifies=[]),
     })
+
+
+    # -----------------------------------------------------------------------------------------
+    # property-level lemmas over the contract clauses (hypotheses are fetched from the store by id)
+    # -----------------------------------------------------------------------------------------
+    @S.composition("C04/roundtrip", ["C04", "C03", "C01", "C19"])
+    def roundtrip(K):
+        """load(dump(v)) is v, type-exact and bit-exact: from dump.is_enc and load[roundtrip]"""
+        v, b, r = K.fresh("v", "val"), K.fresh("b", "bytes"), K.fresh("r", "val")
+        hyps = [K.ensures(F + "dump", "default", "is_enc", {"obj": v, "result": b}),
+                K.ensures(F + "dump", "default", "returns_only_if_plain", {"obj": v, "result": b}),
+                K.expr("wf(v) and sized(v)", {"v": v})]
+        bind = {"data": K.expr("mkbytes(b)", {"b": b}), "v": v, "result": r}
+        hyps.append(K.implication(F + "load", "roundtrip", bind))
+        K.require_no_raises(F + "load", "roundtrip")
+        return [("holds", hyps, K.expr("same(r, v)", {"r": r, "v": v}))]
+
+    @S.composition("C04/refuses-exactly-nonplain", ["C04", "C03"])
+    def refuses(K):
+        """for every value in scope: dumpable(v) => dump returns; not dumpable(v) => dump raises TypeError"""
+        v, d = K.fresh("v", "val"), K.fresh("d", "bool")
+        outcome = K.fresh("outcome", "int")          # 0 = returned, k = k-th entry of dump's raises
+        names = K.raises_names(F + "dump", "default")
+        hyps = [K.z3.And(outcome.z >= 0, outcome.z <= len(names)),
+                K.z3.Implies(outcome.z == 0, K.ensures(F + "dump", "default", "returns_only_if_plain", {"obj": v})),
+                K.ensures(F + "dumpable", "default", "is_plain", {"obj": v, "result": d})]
+        K.require_no_raises(F + "dumpable", "default")
+        for i, n in enumerate(names):
+            hyps.append(K.z3.Implies(outcome.z == i + 1, K.only_when(F + "dump", "default", n, {"obj": v})))
+        te = names.index("TypeError") + 1
+        goal = K.z3.Implies(K.expr("sized(v)", {"v": v}),
+                            K.z3.And(K.z3.Implies(d.z, outcome.z == 0), K.z3.Implies(K.z3.Not(d.z), outcome.z == te)))
+        return [("holds", hyps, goal)]
